@@ -131,6 +131,16 @@ def run_case(ck, desc):
                             ck.violation("rescaled-profile-reaches-one-at-initial-value", {"row": i}, desc)
                             break
                     ck.count("profile_lines_compared")
+                # plotting is read-only, and a second figure from the same object carries the same data
+                if not (np.array_equal(res.pseudopressure, pp) and np.array_equal(np.asarray(res.time), np.asarray(time))):
+                    ck.violation("plotting-leaves-simulated-data-untouched", {"helper": "plot_pseudopressure", "max_abs_change": float(np.max(np.abs(np.asarray(res.pseudopressure) - pp)))}, desc)
+                with warnings.catch_warnings(), np.errstate(all="ignore"):
+                    warnings.simplefilter("ignore")
+                    ax2 = bp.plot_pseudopressure(res, every=1, rescale=False)
+                got2 = _lines(ax2)
+                if len(got2) != nt or any(not np.array_equal(gy, pp[i]) for i, (_, gy) in enumerate(got2)):
+                    ck.violation("second-figure-carries-simulated-data", {"lines": len(got2), "expected": nt}, desc)
+                ck.count("second_plots_from_same_object")
                 return bool(len(got) >= 1), {"lines": len(got), "every": desc["every"], "rescale": desc["rescale"]}
             # recovery factor / rate
             with warnings.catch_warnings(), np.errstate(all="ignore"):
@@ -154,6 +164,8 @@ def run_case(ck, desc):
                 ck.violation("curve-carries-simulated-data", {"which": desc["which"], "max_abs": float(np.nanmax(np.abs(gy - want)))}, desc)
             if desc["which"] == "factor" and ax.get_xscale() != "squareroot":
                 ck.violation("recovery-factor-on-square-root-axis", {"xscale": ax.get_xscale()}, desc)
+            if not (np.array_equal(res.pseudopressure, pp) and np.array_equal(np.asarray(res.time), np.asarray(time))):
+                ck.violation("plotting-leaves-simulated-data-untouched", {"helper": desc["which"]}, desc)
             ck.count(f"recovery_curves_compared.{desc['which']}")
             return True, {"which": desc["which"], "nt": nt}
 
